@@ -308,6 +308,13 @@ def render_machine(prog, base_name=None):
             if t["dst"] in [s["id"] for s in prog["states"] if s.get("inherited")]:
                 line = line.replace(f".to({t['dst']},", f".to({base_name}.{t['dst']},", 1)
             body.append(line)
+        elif t.get("msrc") and t["msrc"] in done_groups:
+            continue
+        elif t.get("msrc") and sum(1 for x in prog["trans"] if x.get("msrc") == t["msrc"]) > 1:
+            done_groups.add(t["msrc"])
+            srcs = [x["src"] for x in prog["trans"] if x.get("msrc") == t["msrc"]]
+            line = render_transition(prog, t)
+            body.append(line.replace(f".from_({t['src']},", ".from_(" + ", ".join(srcs) + ",", 1))
         elif t.get("orgroup"):
             if t["orgroup"] in done_groups:
                 continue
